@@ -129,4 +129,32 @@ theorem goMap_valid (f : Nat → Nat) (s : Bytes) : ValidUtf8 (goMap f s) := by
     rcases List.mem_map.mp hr with ⟨x, _, rfl⟩
     exact normR_valid _)]
 
+theorem ascii_valid (a : Bytes) (h : a.all (fun c => c < 128) = true) : ValidUtf8 a := by
+  have ha := isAscii_of_all a h
+  unfold ValidUtf8 encodeUtf8
+  rw [decodeUtf8_of_ascii a ha, List.flatMap_map]
+  clear h
+  induction a with
+  | nil => rfl
+  | cons b tl ih =>
+    have hb : b.toNat < 128 := ha b (by simp)
+    have htl : IsAscii tl := fun x hx => ha x (by simp [hx])
+    have e : encodeRune b.toNat = [b] := by
+      unfold encodeRune; rw [if_pos (by omega)]; simp
+    simp only [List.flatMap_cons, e, ih htl]; rfl
+
+theorem goToUpper_valid (s : Bytes) : ValidUtf8 (goToUpper s) := by
+  cases hs : s.all (fun c => c < 128) with
+  | true => rw [goToUpper_ascii s hs]; exact ascii_valid _ (all_ascii_map upperB upperB_ascii s hs)
+  | false =>
+    have e : goToUpper s = goMap toUpperR s := by unfold goToUpper; simp only [hs]; rfl
+    rw [e]; exact goMap_valid _ _
+
+theorem goToLower_valid (s : Bytes) : ValidUtf8 (goToLower s) := by
+  cases hs : s.all (fun c => c < 128) with
+  | true => rw [goToLower_ascii s hs]; exact ascii_valid _ (all_ascii_map lowerB lowerB_ascii s hs)
+  | false =>
+    have e : goToLower s = goMap toLowerR s := by unfold goToLower; simp only [hs]; rfl
+    rw [e]; exact goMap_valid _ _
+
 end Rare.C11.Case
